@@ -160,3 +160,30 @@ func TestF22_WalkToNofid(t *testing.T) {
 		}
 	}
 }
+
+// K-2/F-26: a request naming a fid whose Twalk is still executing must not reach the file
+// server (the Unix file server dereferences the fid's Aux, which the walk has not set yet).
+func TestF26_RequestOnFidBeingCreated(t *testing.T) {
+	o := &ops{gate: map[string]chan bool{"walk": make(chan bool)}}
+	c, _ := serve(t, o, 8192, false)
+	version(t, c, 8192, "9P2000")
+	attach(t, c, 1)
+	fc := g.NewFcall(8192)
+	g.PackTwalk(fc, 1, 9, []string{"a"})
+	send(t, c, fc, 5)
+	time.Sleep(30 * time.Millisecond) // the walk is parked inside the implementation; fid 9 is in the table
+	r := rpc(t, c, false, 6, func(fc *g.Fcall) error { return g.PackTstat(fc, 9) })
+	o.mu.Lock()
+	calls := append([]string(nil), o.calls...)
+	o.mu.Unlock()
+	close(o.gate["walk"])
+	recv(t, c, false)
+	for _, x := range calls {
+		if x == "stat" {
+			t.Fatalf("Tstat on fid 9 reached the implementation while the Twalk creating it was still executing (reply %v)", r)
+		}
+	}
+	if r.Type != g.Rerror {
+		t.Fatalf("Tstat on a fid being created: %v, want Rerror", r)
+	}
+}
